@@ -17,10 +17,9 @@ run_demo() {
     rm -rf chiritori/tests
     return $rc
   else
-    cargo build --offline -p chiritori-cli >/dev/null 2>&1
-    # demos reference /tmp/seed_Cxx paths: rewrite them to this worktree / target dir
-    sed -e "s#/tmp/seed_C[0-9]*/target#$CARGO_TARGET_DIR#g" -e "s#/tmp/seed_C[0-9]*#$wt#g" "$sd/demo.sh" > /tmp/wt_confirm_demo.sh
-    (cd $wt && CARGO_TARGET_DIR=$CARGO_TARGET_DIR sh /tmp/wt_confirm_demo.sh) >/tmp/wt_confirm_demo.log 2>&1
+    # shell demos build and run the CLI inside their worktree: point them at this scratch worktree
+    sed -e "s#/tmp/seed2\?_C[0-9]*#$wt#g" "$sd/demo.sh" > /tmp/wt_confirm_demo.sh
+    (cd $wt && env -u CARGO_TARGET_DIR sh /tmp/wt_confirm_demo.sh) >/tmp/wt_confirm_demo.log 2>&1
     return $?
   fi
 }
